@@ -637,7 +637,16 @@ pub fn run_c02(tier: Tier) -> i32 {
     let mut exps = vec![];
     match tier {
         Tier::Quick => {
-            exps.push(Exp::new("base", cfg_with(true, true, 250_000), alpha.clone(), std_seeds(&tier), 4));
+            // the deepest level with the size-changing operations only (two sizes, two block steps, one oracle move);
+            // the full alphabet one level less deep
+            let mut deep = StdAlpha::basic(&T2);
+            deep.sizes = vec![SIZE_M, SIZE_L];
+            deep.deposit = None;
+            deep.withdraw = None;
+            deep.blocks = vec![15, 1200];
+            deep.prices = vec![8 * D];
+            exps.push(Exp::new("base, size-changing operations", cfg_with(true, true, 250_000), deep.acts(), std_seeds(&tier), 4));
+            exps.push(Exp::new("base", cfg_with(true, true, 250_000), alpha.clone(), std_seeds(&tier), 3));
             exps.push(Exp::new("base", cfg_with(false, false, 0), alpha.clone(), std_seeds(&tier), 3));
             exps.push(Exp::new("partial-liquidation band", cfg_liq(true, false, 250_000), liq_alpha(false), liq_seeds(), 3));
             let mut z = cfg_liq(false, false, 250_000);
@@ -711,7 +720,14 @@ pub fn run_c03(tier: Tier) -> i32 {
     match tier {
         Tier::Quick => {
             exps.push(Exp::new("base", cfg_with(true, true, 0), alpha.clone(), std_seeds(&tier), 3));
-            exps.push(Exp::new("base", cfg_with(false, true, 250_000), alpha.clone(), std_seeds(&tier), 4));
+            exps.push(Exp::new("base", cfg_with(false, true, 250_000), alpha.clone(), std_seeds(&tier), 3));
+            // the deepest level with a reduced alphabet (two sizes, two block steps, one oracle move)
+            let mut deep = StdAlpha::basic(&T2);
+            deep.self_liq = true;
+            deep.sizes = vec![SIZE_M, SIZE_L];
+            deep.blocks = vec![15, 1200];
+            deep.prices = vec![8 * D];
+            exps.push(Exp::new("base, reduced alphabet", cfg_with(false, true, 250_000), deep.acts(), std_seeds(&tier), 4));
             exps.push(Exp::new("liquidation band", cfg_liq(true, true, 250_000), liq_alpha(false), liq_seeds_f(), 3));
             exps.push(Exp::new("liquidation band", cfg_liq(false, false, 0), liq_alpha(false), liq_seeds_f(), 3));
             exps.push(Exp::new("liquidation band", cfg_liq(true, true, D), liq_alpha(false), liq_seeds(), 3));
@@ -914,7 +930,7 @@ pub fn run_c04(tier: Tier) -> i32 {
             let mut c = cfg_with(true, true, 250_000);
             c.fluct = 50_000;
             c.imr = 100_000;
-            exps.push(Exp { setup: None, name: "partial-close".into(), cfg: c, traders: T2.to_vec(), seeds: vec![vec![]], alpha: Alpha::Dyn(alpha_c15), depth: 5, init_mon: Value::Null, raw: false });
+            exps.push(Exp { setup: None, name: "partial-close".into(), cfg: c, traders: T2.to_vec(), seeds: vec![vec![]], alpha: Alpha::Dyn(alpha_c15), depth: 4, init_mon: Value::Null, raw: false });
         }
         Tier::Thorough => {
             for cw20 in [true, false] {
@@ -1034,7 +1050,7 @@ pub fn run_c05(tier: Tier) -> i32 {
     };
     match tier {
         Tier::Quick => {
-            push(mk(true, 100_000, 62_500, false), 4);
+            push(mk(true, 100_000, 62_500, false), 3);
             push(mk(false, 300_000, 62_500, true), 3);
         }
         Tier::Thorough => {
@@ -1797,7 +1813,7 @@ pub fn run_c16(tier: Tier) -> i32 {
     match tier {
         Tier::Quick => {
             push(0, 4);
-            push(250_000, 5);
+            push(250_000, 4);
         }
         Tier::Thorough => {
             push(0, 6);
